@@ -58,6 +58,13 @@ def body(run):
         (d / 'in').mkdir(parents=True)
         (d / 'out').mkdir()
         g, pair, mbm, _ = fz.workable_pair(d / 'in', rng, lambda r: synth.aligned_geom(r, 30), (9, 9), 4, tag='i')      # (room for the 5-row kernels' overlap + 1 with partial masking)
+        if hi % 2 == 1:
+            # a reference with invalid pixels INSIDE the source footprint (a masked cloud): whatever a run does to the blocks it read - zeroing
+            # them under the mask, say - must not reach the next run on the same object
+            rmask = np.ones(g.ref_shape, bool)
+            cr, cc = int(g.off_rc[0] + g.src_shape[0] / g.ratio / 2), int(g.off_rc[1] + g.src_shape[1] / g.ratio / 2)
+            rmask[max(0, cr - 2):cr + 2, max(0, cc - 2):cc + 2] = False
+            synth.write_tif(pair['ref_fn'], pair['ref'], g.ref_transform, mask=rmask)
         corr, param = d / 'out' / 'corr.tif', d / 'out' / 'corr_PARAM.tif'
         # pre-seed: nothing / junk bytes / a valid older product of another model
         pre = rng.choice(['none', 'corr-junk', 'param-junk', 'both-junk', 'old-product', 'old-product', 'corr-empty', 'param-empty'])
